@@ -55,6 +55,8 @@ pub mod security {
         ensures r is Ok ==> r->Ok_0.key() == veriying_key@
     { unimplemented!() }
 }
+// the plain-mode hasher (the one that digests rows), so that code reaching for it is decided rather than rejected by the front end
+//@ include common/blake3_stub.rs
 /// a fresh 32-byte challenge (the randomness itself is not modelled: what is decided is that the proof is checked against
 /// the value created in this call and sent in this call's ProveIdentity request)
 #[verifier::external_body]
